@@ -41,6 +41,82 @@ def fail_key(family, path):
     return '%s: %s' % (family, p.strip())
 
 
+def _label_key(replay, why):
+    """the recorded finding (a stack whose last label is 0 is written without the bottom-of-stack bit: the shared helper's
+    special case, pinned by the repository's EVPN test) has its own key"""
+    def last_labels(o):
+        if isinstance(o, dict):
+            if 'label' in o and isinstance(o['label'], (list, tuple)) and o['label']:
+                yield o['label'][-1]
+            for v in o.values():
+                for x in last_labels(v):
+                    yield x
+        elif isinstance(o, (list, tuple)):
+            for v in o:
+                for x in last_labels(v):
+                    yield x
+    if any(l == 0 for l in last_labels(replay)):
+        return 'KF-labeled-last-label-zero'
+    return 'label-stack'
+
+
+def label_stacks_ok(wire):
+    """RFC 8277 / 4364 label stacks inside the MP_REACH_NLRI / MP_UNREACH_NLRI of labeled (SAFI 4) and VPN (SAFI 128) routes:
+    every route's stack ends at the FIRST entry with the bottom-of-stack bit (or at the withdraw pseudo-labels 0x800000 /
+    0x000000), and what follows it (route distinguisher for VPN, then the prefix) fits the length in bits the route announces
+    with a prefix of at most 32 / 128 bits.  The Lean walker checks that the lengths add up; this looks inside the stack.
+    Returns None when fine, else a description."""
+    body = wire[19:]
+    try:
+        wl = struct.unpack('!H', body[:2])[0]
+        al = struct.unpack('!H', body[2 + wl:4 + wl])[0]
+    except struct.error:
+        return None
+    a = body[4 + wl:4 + wl + al]
+    while len(a) >= 3:
+        hl = 4 if a[0] & 0x10 else 3
+        if len(a) < hl:
+            return None
+        ln = struct.unpack('!H', a[2:4])[0] if a[0] & 0x10 else a[2]
+        code, v = a[1], a[hl:hl + ln]
+        a = a[hl + ln:]
+        if code not in (14, 15) or len(v) < 3:
+            continue
+        afi, safi = struct.unpack('!HB', v[:3])
+        if safi not in (4, 128) or afi not in (1, 2):
+            continue
+        if code == 14:
+            if len(v) < 5:
+                continue
+            nh = v[3]
+            nlri = v[4 + nh + 1:]
+        else:
+            nlri = v[3:]
+        maxp = 32 if afi == 1 else 128
+        n = 0
+        while nlri:
+            bits = nlri[0]
+            octets = (bits + 7) // 8
+            item, nlri = nlri[1:1 + octets], nlri[1 + octets:]
+            if len(item) < octets:
+                return 'route %d: %d bits announced, %d octets present' % (n, bits, len(item))
+            k = 0
+            done = False
+            while len(item) >= 3 * (k + 1):
+                lab = item[3 * k:3 * k + 3]
+                k += 1
+                if lab[2] & 1 or (code == 15 and lab in (b'\x80\x00\x00', b'\x00\x00\x00')):
+                    done = True
+                    break
+            if not done:
+                return 'route %d: the label stack has no bottom-of-stack entry' % n
+            rest_bits = bits - 24 * k - (64 if safi == 128 else 0)
+            if rest_bits < 0 or rest_bits > maxp:
+                return 'route %d: after %d label(s) %d bits are left for the prefix (0..%d allowed)' % (n, k, rest_bits, maxp)
+            n += 1
+    return None
+
+
 class Oracle(object):
     """collects (family, replay, hex, cfg) and walks them in batches"""
 
@@ -54,6 +130,11 @@ class Oracle(object):
         if 'hex' in out:
             st.hit('constructed:' + family)
             self.pending.append((family, replay, out['hex'], asn4, addpath))
+            why = label_stacks_ok(bytes.fromhex(out['hex']))
+            if why:
+                self.res.fail(PROP, 'constructed message is not structurally valid (%s): label stack: %s' % (family, why),
+                              {'family': family, 'input': replay, 'asn4': asn4, 'addpath': addpath, 'hex': out['hex']},
+                              key=_label_key(replay, why))
         elif 'hang' in out:
             st.hit('hang:' + family)
             self.res.fail(PROP, 'constructor does not return (%s)' % family, {'family': family, 'input': replay},
